@@ -196,6 +196,9 @@ func (f *Fam) Gen(r *rand.Rand, i int) string {
 		f.script = f.script[1:]
 		return op
 	}
+	if r.Intn(150) == 0 {
+		return fmt.Sprintf("mon.mstrace %d", r.Int63())
+	}
 	// probe: a wrapper that has only been read is written, a sibling then changes the shared
 	// parent, and the wrapper is read again: it must be clean after Write
 	if f.top().kind == "cache" && len(f.layers) > 1 && len(f.iters) == 0 && r.Intn(40) == 0 {
@@ -480,6 +483,18 @@ func (f *Fam) Exec(op string) (string, []common.Failure) {
 	f.opsInProg++
 	cfg := stypes.KVGasConfig()
 	switch w[0] {
+	case "mon.mstrace":
+		seed, _ := strconv.ParseInt(w[1], 10, 64)
+		func() {
+			defer func() {
+				if e := recover(); e != nil {
+					fail("trace-faithful", "C16:multistore-trace-panic", fmt.Sprint(e))
+				}
+			}()
+			monMSTrace(seed, fail)
+		}()
+		f.opsInProg--
+		return "done", fails
 	case "new":
 		if w[1] == "inf" {
 			f.reset(^uint64(0))
